@@ -196,12 +196,15 @@ func loadStateAtHeight(db kaidb.Database, height uint64) *LatestBlockState {
 		panic(fmt.Errorf(`block meta not found at height %v`, height))
 	}
 	state.LastBlockHeight = blockMeta.Header.Height
-	state.LastBlockID = blockMeta.BlockID
 	state.LastBlockTime = blockMeta.Header.Time
 	state.LastBlockTotalTx = blockMeta.Header.NumTxs
-
-	appHash := rawdb.ReadAppHash(db, height)
-	state.AppHash = appHash
+	// No block precedes the first one: the genesis state made by MakeGenesisState has an empty
+	// LastBlockID and AppHash, and the same state loaded back after a restart must have them too,
+	// or the restarted node rejects the first block every other node accepts.
+	if height > 0 {
+		state.LastBlockID = blockMeta.BlockID
+		state.AppHash = rawdb.ReadAppHash(db, height)
+	}
 
 	lValsInfo := rawdb.ReadConsensusValidatorsInfo(db, common.BytesToHash(sp.LastValidatorsInfoHash))
 	if state.LastBlockHeight > 0 {
